@@ -100,11 +100,122 @@ pub fn single_cases(tier: Tier) -> Vec<FaultCase> {
 	out
 }
 
+// ------------------------------------------------ the key file changes between two renewals of one daemon
+#[derive(Clone, Debug, serde::Serialize, serde::Deserialize)]
+pub struct RotCase {
+	pub kp_reuse: bool,
+	/// what happens to the key file after issuance i (while the daemon is held in its post-operation hook):
+	/// keep | rotate (another key of the same type) | delete | othertype
+	pub steps: Vec<String>,
+}
+
+fn rot_strategy() -> impl Strategy<Value = RotCase> {
+	(prop_oneof![3 => Just(true), 1 => Just(false)], proptest::collection::vec(prop_oneof![1 => Just("keep"), 3 => Just("rotate"), 1 => Just("delete"), 1 => Just("othertype")], 1..=3)).prop_map(|(kp_reuse, steps)| RotCase { kp_reuse, steps: steps.into_iter().map(|s| s.to_string()).collect() })
+}
+
+fn exec_rot(case: &RotCase) -> Outcome {
+	use crate::bb::{self, Layout};
+	use crate::daemon::{Daemon, HookCollector, ProcState};
+	use crate::mockca::{CaPlan, MockCa};
+	use serde_json::json;
+	use std::time::Duration;
+	let acmed = match crate::build::acmed_inst() {
+		Ok(p) => p,
+		Err(e) => return Outcome::Infra(e),
+	};
+	let dir = scratch_dir("c03r");
+	let lay = Layout::new(&dir);
+	let coll = match HookCollector::start(&dir) {
+		Ok(c) => c,
+		Err(e) => return Outcome::Infra(e),
+	};
+	let ids = vec![("dns".to_string(), "rot.c03.test".to_string())];
+	// certificates valid for a day: inside renew_delay, the next renewal starts as soon as the hook returns
+	let ca = match MockCa::start(CaPlan { not_after_s: 86400, polls_authz: 0, polls_ready: 0, polls_valid: 0, ..CaPlan::default() }, vec![(bb::ident_key(&ids), "c1".into())]) {
+		Ok(c) => c,
+		Err(e) => return Outcome::Infra(e),
+	};
+	let cfg = json!({
+		"global": lay.global(),
+		"endpoint": [{"name": "e1", "url": ca.directory_url(), "tos_agreed": true}],
+		"account": [{"name": "a1", "contacts": [{"mailto": "a@c03.test"}]}],
+		"hook": bb::std_hooks(&coll.sock),
+		"certificate": [{"name": "c1", "account": "a1", "endpoint": "e1", "key_type": "ecdsa-p256", "kp_reuse": case.kp_reuse, "hooks": ["rec-http-01", "rec-http-01-clean", "rec-post"],
+			"env": {bb::CERT_ENV: "c1"}, "identifiers": [{"dns": "rot.c03.test", "challenge": "http-01"}]}],
+	});
+	let cfg_path = bb::write_config(&dir, "acmed.toml", &cfg);
+	let key_path = lay.certs.join("c1_ecdsa-p256.pk.pem");
+	let mut daemon = match Daemon::spawn(&bb::daemon_opts(&acmed, &dir, &cfg_path, "run")) {
+		Ok(d) => d,
+		Err(e) => return Outcome::Infra(e),
+	};
+	coll.hold_when(Box::new(|r, _| bb::is_post(r)));
+	let d = format!("{case:?}");
+	let mut result = None;
+	let mut placed: Option<Vec<u8>> = None;
+	for i in 0..=case.steps.len() {
+		let ok = coll.wait_until(&|r| r.iter().filter(|x| bb::is_post(x)).count() > i, Duration::from_secs(60), &mut || daemon.state() != ProcState::Alive);
+		if !ok {
+			result = Some(Outcome::fail("C03:no-attempt-result", format!("issuance {i} did not end within 60 s; {d}\n{}", daemon.stderr_tail(8))));
+			break;
+		}
+		let recs = coll.records();
+		let post = recs.iter().filter(|x| bb::is_post(x)).nth(i).unwrap();
+		if post.arg("is_success") != Some("true") {
+			result = Some(Outcome::fail("C03:attempt-failed", format!("issuance {i} failed against a fault-free CA: {:?}; {d}\n{}", post.arg("status"), daemon.stderr_tail(8))));
+			break;
+		}
+		let crt = post.snaps.first().filter(|s| s.exists).map(|s| s.bytes.clone());
+		let key = post.snaps.get(1).filter(|s| s.exists).map(|s| s.bytes.clone());
+		if let Err((sig, detail)) = pair_state(&crt, &key) {
+			result = Some(Outcome::fail(sig, format!("after issuance {i} (key file {} before it): {detail}; {d}", if i == 0 { "absent".to_string() } else { case.steps[i - 1].clone() })));
+			break;
+		}
+		if crt.is_none() {
+			result = Some(Outcome::fail("C03:cert-missing", format!("issuance {i} reports success without a certificate file; {d}")));
+			break;
+		}
+		// the key an operator put there is the one that stays when key pairs are reused
+		if let (true, Some(p), true) = (case.kp_reuse, &placed, i > 0 && case.steps[i - 1] == "rotate") {
+			if key.as_ref() != Some(p) {
+				result = Some(Outcome::fail("C03:kp-reuse-ignored", format!("kp_reuse is on and the key file was replaced by another usable key before issuance {i}, yet the file holds a third key afterwards; {d}")));
+				break;
+			}
+		}
+		if let Some(step) = case.steps.get(i) {
+			placed = None;
+			match step.as_str() {
+				"rotate" | "othertype" => {
+					if let Ok(k) = keys::gen(if step == "rotate" { "ecdsa-p256" } else { "ecdsa-p384" }) {
+						let pem = keys::pkcs8_pem(&k);
+						let _ = std::fs::write(&key_path, &pem);
+						placed = Some(pem);
+					}
+				}
+				"delete" => {
+					let _ = std::fs::remove_file(&key_path);
+				}
+				_ => {}
+			}
+		}
+		coll.release_one();
+	}
+	daemon.kill();
+	coll.release();
+	bb::cleanup(&dir);
+	if let Some(r) = result {
+		return r;
+	}
+	let changed = case.steps.iter().any(|s| s != "keep");
+	Outcome::pass(changed && case.kp_reuse, vec![format!("kp_reuse={}", case.kp_reuse), format!("issuances={}", case.steps.len() + 1), format!("key-file-changes={}", case.steps.iter().filter(|s| *s != "keep").count())])
+}
+
 pub fn run(ctx: &Ctx, rep: &mut Report) {
-	rep.rule = "single faults: every request position of a 2-identifier issuance (dir, nonce, newAccount, newOrder, 2x authz fetch, 2x challenge, 2x authz poll, order->ready, finalize, order->valid, download) x every applicable fault action (24 ACME types, unknown/absent type, non-JSON bodies, empty errors, three kinds of dropped connection, malformed JSON, each missing field/header, each invalid status, never-ready/never-valid, non-PEM body, forgotten account), enumerated exhaustively, crossed with {previous matching pair, none} x kp_reuse (all 4 in thorough; Latin-square sample in quick); plus random plans of 2..5 faults over 1..3 attempts. Oracle at every post-operation record and after the daemon is stopped: certificate file, if present, parses as a chain whose leaf SPKI equals the key file's SPKI; an attempt in which the CA served no certificate leaves a previously installed matching pair byte-identical. Non-trivial = a fault at or after the first poll for ready (where the key pair is regenerated).".into();
+	rep.rule = "single faults: every request position of a 2-identifier issuance (dir, nonce, newAccount, newOrder, 2x authz fetch, 2x challenge, 2x authz poll, order->ready, finalize, order->valid, download) x every applicable fault action (24 ACME types, unknown/absent type, non-JSON bodies, empty errors, three kinds of dropped connection, malformed JSON, each missing field/header, each invalid status, never-ready/never-valid, non-PEM body, forgotten account), enumerated exhaustively, crossed with {previous matching pair, none} x kp_reuse (all 4 in thorough; Latin-square sample in quick); plus random plans of 2..5 faults over 1..3 attempts; rotation: 2..4 fault-free issuances of one daemon between which the key file is kept, replaced by another key of the same or of another type, or deleted (kp_reuse on in 3 of 4 cases). Oracle at every post-operation record and after the daemon is stopped: certificate file, if present, parses as a chain whose leaf SPKI equals the key file's SPKI; an attempt in which the CA served no certificate leaves a previously installed matching pair byte-identical. Non-trivial = a fault at or after the first poll for ready (where the key pair is regenerated).".into();
 	rep.assume("attempts are delimited by post-operation records; the request log of the mock CA decides whether a certificate was served in an attempt");
 	run_replays::<FaultCase>(ctx, rep, "single", &exec);
 	run_replays::<FaultCase>(ctx, rep, "multi", &exec);
+	run_replays::<RotCase>(ctx, rep, "rotation", &exec_rot);
 	if ctx.replay.is_some() {
 		return;
 	}
@@ -115,5 +226,6 @@ pub fn run(ctx: &Ctx, rep: &mut Report) {
 		s.note = Some(format!("{} (position, action) pairs x variants", single_fault_matrix().len()));
 	}
 	run_prop(ctx, rep, "multi", &multi_fault_strategy(3), ctx.tier.pick(150, 3000), default_par(), &exec);
+	run_prop(ctx, rep, "rotation", &rot_strategy(), ctx.tier.pick(48, 600), default_par(), &exec_rot);
 	let _ = (Action::NonPemBody, Fault { pos: Pos::Dir, nth: 1, repeat: 1, action: Action::NonPemBody, cert: None });
 }
